@@ -607,7 +607,7 @@ func ruleHops(r *core.Reporter) {
 			r.Held("shouldExtractOutlinks", len(esc), "true only for hops < MaxHops or domains crawl")
 		}
 	}
-	r.Floor("hop rule instances", n, 6)
+	r.Floor("hop rule instances", n, 4)
 }
 
 func ruleMatchPure(r *core.Reporter) {
@@ -651,7 +651,7 @@ func ruleMatchPure(r *core.Reporter) {
 		})
 	}
 	r.Analysed(p.FuncsInPkg(rel(pkgDomains))...)
-	if r.Floor("matcher state writes", writes, 4) {
+	if r.Floor("matcher state writes", writes, 2) {
 		r.Held("domainscrawl/writers", writes, "matcher state written only by AddElements/Reset/init")
 	}
 }
